@@ -177,9 +177,6 @@ MUTANTS = {
         {"name": "magic_to_dict_drops_sibling_on_third_level", "kind": "sub", "file": DU,
          "old": "            if keys[0] in new_kwargs and isinstance(new_kwargs[keys[0]], dict):\n                new_kwargs[keys[0]].update(val)\n",
          "new": "            if keys[0] in new_kwargs and isinstance(new_kwargs[keys[0]], dict) and len(keys) < 4:\n                new_kwargs[keys[0]].update(val)\n"},
-        {"name": "defaults_shared_between_resets", "kind": "sub", "file": DU,
-         "old": "    dict_ = deepcopy(DEFAULTS)\n",
-         "new": "    dict_ = DEFAULTS if arg is None else deepcopy(DEFAULTS)\n"},
         {"name": "copy_shares_style_with_original", "kind": "sub", "file": BG,
          "old": "            obj_copy.style.label = label\n",
          "new": "            obj_copy.style.label = label\n            obj_copy.style.path = self.style.path\n"},
